@@ -512,9 +512,9 @@ func genFnCase(r *vlib.R, emit func(string)) int {
 func gen(r *vlib.R, n int, tier string, emit func(string)) {
 	// system-level scenarios first (they carry the property), then the
 	// function-level correspondence stream fills the op budget.
-	scen := 26
+	scen := 150
 	if tier == "thorough" {
-		scen = 400
+		scen = 2500
 	}
 	if v := os.Getenv("VERIF_C08_SCEN"); v != "" {
 		scen = vlib.Atoi(v)
